@@ -171,12 +171,29 @@ func (fs *FSResults) Spool(graph string, stream *Stream) (string, error) {
 		job.setState(gripql.JobState_RUNNING)
 		log.Printf("Starting Job: %s", jobName)
 		defer resultFile.Close()
+		var writeErr error
 		for i := range tbStream {
-			resultFile.Write(i)
-			resultFile.Write([]byte("\n"))
+			if writeErr != nil {
+				// keep draining so that the traversal can finish; a job whose
+				// rows could not all be written ends in ERROR below
+				continue
+			}
+			if _, err := resultFile.Write(i); err != nil {
+				writeErr = err
+				continue
+			}
+			if _, err := resultFile.Write([]byte("\n")); err != nil {
+				writeErr = err
+				continue
+			}
 			job.lock.Lock()
 			job.Status.Count += 1
 			job.lock.Unlock()
+		}
+		if writeErr != nil {
+			job.setState(gripql.JobState_ERROR)
+			log.Printf("Job Error: %s %s", jobName, writeErr)
+			return
 		}
 		statusPath := filepath.Join(spoolDir, "status")
 		statusFile, err := os.Create(statusPath)
@@ -189,10 +206,14 @@ func (fs *FSResults) Spool(graph string, stream *Stream) (string, error) {
 			out, err := json.Marshal(job)
 			count := job.Status.Count
 			if err == nil {
-				statusFile.Write([]byte(fmt.Sprintf("%s\n", out)))
+				_, err = statusFile.Write([]byte(fmt.Sprintf("%s\n", out)))
+			}
+			if err != nil {
+				// without its status file the job would be gone after a restart
+				job.Status.State = gripql.JobState_ERROR
 			}
 			job.lock.Unlock()
-			log.Printf("Job Done: %s (%d results)", jobName, count)
+			log.Printf("Job Done: %s (%d results) %v", jobName, count, err)
 		} else {
 			job.setState(gripql.JobState_ERROR)
 			log.Printf("Job Error: %s %s", jobName, err)
